@@ -1,4 +1,6 @@
 """C07 - a truncated file is never mistaken for a valid pose; trailing bytes are ignored."""
+import numpy as np
+
 import common
 import posegen as pg
 import translate_py
@@ -116,7 +118,46 @@ class C07(common.Prop):
         self._prime(case)
         trailing, _ = pg.impl_read(case["file"] + case["suffix"], kind, case["args"])
         case["_impl"] = (out, intact, trailing)
+        case["_impl_be"] = self._other_backends(case, kind)
         return {"cuts": [pg.strip_err(r) for r in out], "intact": pg.strip_err(intact), "trailing": pg.strip_err(trailing)}
+
+    # the same prefixes read into the PyTorch and TensorFlow bodies (a sample of the cuts: header end, body start, inside the data
+    # block, the data / confidence boundary, inside the confidence block, the last bytes): "every full read raises" holds for
+    # every body class, and each has its own tensor reader (unpack_torch / unpack_tensorflow)
+    def _backend_classes(self):
+        if not hasattr(self, "_bes"):
+            from pose_format.torch.pose_body import TorchPoseBody
+            from pose_format.tensorflow.pose_body import TensorflowPoseBody
+            self._bes = {"torch": TorchPoseBody, "tensorflow": TensorflowPoseBody}
+        return self._bes
+
+    @staticmethod
+    def _tensor_dump(body):
+        d = body.data
+        vals = np.asarray(d.tensor)
+        return [list(vals.shape), np.ascontiguousarray(vals).tobytes(), np.asarray(d.mask).tobytes(), np.asarray(body.confidence).tobytes(),
+                float(body.fps)]
+
+    def _other_backends(self, case, kind):
+        import io
+        from pose_format import Pose
+        n = len(case["file"])
+        cuts = case["cuts"]
+        step = max(1, len(cuts) // 14)
+        sample = sorted(set(cuts[::step] + cuts[-6:]))
+        args = {k: v for k, v in case["args"].items() if v is not None}
+        out = {}
+        for be, cls in self._backend_classes().items():
+            def read(b):
+                self._prime(case)
+                src = bytes(b) if kind == "bytes" else io.BytesIO(bytes(b))
+                try:
+                    return ["ok", self._tensor_dump(Pose.read(src, pose_body=cls, **args).body)]
+                except Exception as e:
+                    return ["err", type(e).__name__]
+            intact = read(case["file"])
+            out[be] = {"intact": intact[0], "cuts": [(c, r[0], r == intact) for c in sample for r in [read(case["file"][:c])]]}
+        return out
 
     def run_model(self, case, runner):
         k = 0 if case["src"] == "bytes" else 1
@@ -154,6 +195,14 @@ class C07(common.Prop):
                 if r[0] == "ok" and (intact[0] != "ok" or r[1] != intact[1]):
                     return {"what": "windowed stream read of the %d-byte prefix returned a pose different from the intact file's" % c,
                             "kind": "prefix-window-differs", "cut": c}
+        for be, rec in (case.get("_impl_be") or {}).items():
+            for c, st, same in rec["cuts"]:
+                if st == "ok" and (full or not same):
+                    return {"what": "%s read of the %d-byte prefix of a %d-byte file into the %s body returned a pose%s"
+                                    % ("full" if full else "windowed stream", c, len(case["file"]), be, "" if full else " different from the intact file's"),
+                            "kind": "prefix-accepted-" + be if full else "prefix-window-differs-" + be, "cut": c}
+            if full and rec["intact"] != "ok":
+                return {"what": "full read of the intact written file into the %s body raises" % be, "kind": "intact-raises-" + be}
         if intact[0] == "ok" and (trailing[0] != "ok" or trailing[1] != intact[1]):
             return {"what": "bytes appended after a complete file changed what is read", "kind": "trailing"}
         if full and intact[0] != "ok":
